@@ -59,10 +59,9 @@ def check(run):
                 # segment or kept apart while the commit's merge policy still runs over the older segments; the
                 # asynchronous writer)
                 cfg = {"storage": "file", "compound": True, "layout": li,
-                       **rng.choice([{"frontend": "mp", "procs": 2, "batchsize": 2, "multisegment": True},
-                                     {"frontend": "mp", "procs": 2, "batchsize": 2, "multisegment": True},
-                                     {"frontend": "mp", "procs": 3, "batchsize": 1, "multisegment": False},
-                                     {"frontend": "async"}])}
+                       **[{"frontend": "mp", "procs": 2, "batchsize": 2, "multisegment": True},
+                          {"frontend": "mp", "procs": 3, "batchsize": 1, "multisegment": False},
+                          {"frontend": "async"}][(wi // 2) % 3]}
                 # ... and its last adding commit optimises (merges the older segments into the writer's own one)
                 last = max(i for i, st in enumerate(plan) if st[0] == "commit" and st[1])
                 plan = list(plan)
